@@ -273,3 +273,37 @@ Fixpoint run_ops (d : dstore) (n : N) (os : list hop) : dstore * N * list hres :
   | o :: tl => let out := do_op d n o in
                let '(d', n', rs) := run_ops (d_store out) (n + 1) tl in (d', n', d_res out :: rs)
   end.
+
+(* ---------- OnStartedLeading as a program (leader.go:93-108) ----------
+   The callback parses the version from Describe(), emits a gauge, calls SetCurrentRevision and only
+   then sets the leader flag; IsLeader() (the flag) is what admits write requests on the node. *)
+Inductive cb_pc := CbIdle | CbParsed (v : N) | CbInstalled (v : N) | CbLeading (v : N).
+Record node := mkNode { n_pc : cb_pc; n_lead : leader; n_flag : bool }.
+Definition node0 : node := mkNode CbIdle (mkL 0 0) false.
+
+Inductive nlabel :=
+| NParse (v : N)      (* getLeaderAndVersion succeeded with version v *)
+| NInstall            (* backend.SetCurrentRevision(version) *)
+| NFlag               (* l.leader = true *)
+| NRequest.           (* a client write arrives; admitted iff IsLeader() *)
+
+(* returns the revision handed out, if the request was admitted *)
+Definition nstep (x : node) (l : nlabel) : node * option N :=
+  match l with
+  | NParse v => match n_pc x with CbIdle => (mkNode (CbParsed v) (n_lead x) (n_flag x), None) | _ => (x, None) end
+  | NInstall => match n_pc x with
+                | CbParsed v => (mkNode (CbInstalled v) (set_current (n_lead x) v) (n_flag x), None)
+                | _ => (x, None)
+                end
+  | NFlag => match n_pc x with CbInstalled v => (mkNode (CbLeading v) (n_lead x) true, None) | _ => (x, None) end
+  | NRequest =>
+      if n_flag x
+      then let r := deal (n_lead x) + 1 in (mkNode (n_pc x) (mkL r r) true, Some r)
+      else (x, None)
+  end.
+
+Fixpoint nrun (x : node) (ls : list nlabel) : node * list (option N) :=
+  match ls with
+  | [] => (x, [])
+  | l :: tl => let '(x1, o) := nstep x l in let '(x2, os) := nrun x1 tl in (x2, o :: os)
+  end.
